@@ -376,6 +376,10 @@ func (g *G) Spec() *Spec {
 	if g.O.Ext && g.R.Chance(1, 2) {
 		s.Ext = map[string]interface{}{"x-top": g.R.Pick([]string{"1", "2"})}
 	}
+	// presence of info.contact / info.license: derived from the shape of the spec, not from the generator's random stream
+	// (the stored streams of the other checks stay what they were)
+	s.Contact = (len(s.Defs)+len(s.Paths))%3 != 0
+	s.License = len(s.Paths)%2 == 0
 	s.Normalize()
 	return s
 }
@@ -907,12 +911,21 @@ func (g *G) Mutate(a *Spec, k int) (*Spec, EditLog) {
 		}
 	}
 	b.Normalize()
+	// info.contact / info.license on one side only (Clone drops the fields that are outside the model's encoding)
+	b.Contact, b.License = a.Contact, a.License
+	if len(log)%2 == 1 {
+		b.Contact = !b.Contact
+	}
+	if k >= 2 {
+		b.License = !b.License
+	}
 	return b, log
 }
 
 // Reserialise returns a copy of a with every list the analyser treats as a set permuted.
 func (g *G) Reserialise(a *Spec) *Spec {
 	b := a.Clone()
+	b.Contact, b.License = a.Contact, a.License
 	shuf := func(xs []string) {
 		g.R.Shuffle(len(xs), func(i, j int) { xs[i], xs[j] = xs[j], xs[i] })
 	}
